@@ -6,9 +6,11 @@ into sub-universes that are each searched exhaustively with every argument tuple
 
   structure   body/div1/div2/p1/span1/span2/br1/text1, two documents: push_child, push_children, remove,
               remove_child, remove_children, set_doc (valid, ill-typed, cross-document arguments)
+  structure-deep[upper|middle|lower]  the same world, calls restricted to 4-5 of its elements, searched until no new
+              state appears (quick: the slice selected by VERIF_SEED % 3, lower only to depth 4; thorough: all three)
   registry    body/div1/p1 + regions r1, r1b (same id, same document), rB (same id, other document), r2:
               put_region, remove_region, set_region, set_body, set_doc, push_child, remove
-  ruby        ruby/rb/rt/rt2/rp1/rp2/rbc/rtc1/rtc2/span1 + rtA (an Rt of another document): push_children
+  ruby        ruby/rb/rb2/rt/rt2/rp1/rp2/rbc/rbc2/rtc1/rtc2/span1 + rtA (an Rt of another document): push_children
               patterns, push_child, remove, remove_child, remove_children
   ruby-lists  depth 1: EVERY list of <= 4 distinct ruby-kind elements handed to Ruby.push_children and
               Rtc.push_children, from four pre-built states
@@ -43,17 +45,21 @@ RULE = ("states = canonical projections (every instance attribute of every objec
 BOUNDS = {
   "quick": "structure depth 3 (2 initial states, 448 events/state); structure-deep: the seed-selected slice -- upper (body/div1/div2/p1) "
            "or middle (div1/p1/span1/span2) searched to closure (no new state after level 9-10, bound 12), or lower "
-           "(p1/span1/span2/br1/text1) depth 4; registry depth 4 (2 initial states, 97 events); ruby depth 4 (4 initial states, 134 events); "
-           "ruby-lists depth 1 (every list of <= 4 distinct elements, 2598 events, 4 initial states); style depth 3 (436 events); "
+           "(p1/span1/span2/br1/text1) depth 4; registry depth 4 (2 initial states, 97 events); ruby depth 4 (4 initial states, 151 events); "
+           "ruby-lists depth 1 (every list of <= 4 distinct elements, 10132 events, 4 initial states); style depth 3 (3 properties with 4-7 near values each, 196 events); "
            "style-table depth 1 (36 properties x 49 values x 3 sinks + region and text targets, 7164 events)",
   "thorough": "structure depth 4; structure-deep all three slices to closure (bound 12); registry depth 5; ruby depth 5; ruby-lists depth 1; "
-              "style depth 4 (8 values per property instead of 12); style-table depth 1",
+              "style depth 4 (3-4 near values per property); style-table depth 1",
 }
 ASSUMPTIONS = [
   "the complete state of the model objects is their instance attributes (unexpected attributes are part of the projection); "
   "public getters are pure",
   "after an event that left the complete private projection unchanged the same world is reused for the next event "
   "(otherwise every event runs on a fresh replay of the history)",
+  "projections, abstract state and invariant of a successor are functions of its complete private projection and are "
+  "computed once per distinct successor within one expansion",
+  "replays of a history run without the per-call alarm: every event of a history returned when it was first executed "
+  "under the alarm (a call that does not return produces no successor)",
   "structurally broken states (links/acyclic/single-parent) are terminal: they are reported and not expanded",
   "value validity is judged by mc/modelref.my_valid (top-level type per property, documented units of extent/origin/"
   "position, each item of a font-family tuple); values the documentation does not decide are not judged",
@@ -87,9 +93,9 @@ UNIVERSES = {
   },
   "ruby": {
     "docs": ["A"], "ids": [],
-    "elems": [["ruby", "Ruby", None], ["rb", "Rb", None], ["rt", "Rt", None], ["rt2", "Rt", None], ["rp1", "Rp", None],
-              ["rp2", "Rp", None], ["rbc", "Rbc", None], ["rtc1", "Rtc", None], ["rtc2", "Rtc", None], ["span1", "Span", None],
-              ["rtA", "Rt", "A"]],
+    "elems": [["ruby", "Ruby", None], ["rb", "Rb", None], ["rb2", "Rb", None], ["rt", "Rt", None], ["rt2", "Rt", None],
+              ["rp1", "Rp", None], ["rp2", "Rp", None], ["rbc", "Rbc", None], ["rbc2", "Rbc", None], ["rtc1", "Rtc", None],
+              ["rtc2", "Rtc", None], ["span1", "Span", None], ["rtA", "Rt", "A"]],
     "presets": {
       "empty": [],
       "rtc-rt": [["push_child", "rtc1", "rt"]],
@@ -178,6 +184,7 @@ RUBY_LISTS = [
   ["rb", "rtA"], ["rb", "rp1", "rtA", "rp2"], ["rbc", "rtc1", "rtc1"], ["rb", "rt2"],
   [], ["rb"], ["rt"], ["rp1", "rp2"], ["rb", "rp1", "rp2"], ["rp1", "rt", "rp2"],
   ["rt", "rb"], ["rbc"], ["rtc1"], ["rbc", "rb"], ["rb", "rt", "rt2"], ["rb", "rb"], ["rb", "rt", "rp1"], ["span1"],
+  ["rb", "rb2"], ["rb2", "rt"], ["rbc", "rbc2"], ["rbc2", "rtc2"], ["rtc1", "rtc2"], ["rt", "rt2"], ["rbc", "rtc1", "rtc2", "rbc2"],
   ["NONE"], "NONE",
 ]
 RTC_LISTS = [
@@ -219,8 +226,8 @@ def menu_ruby():
 
 
 def menu_ruby_lists():
-  pool_ruby = ["rb", "rt", "rp1", "rp2", "rbc", "rtc1", "rtc2", "rtA"]
-  pool_rtc = ["rt", "rt2", "rp1", "rp2", "rb", "rtA"]
+  pool_ruby = ["rb", "rb2", "rt", "rt2", "rp1", "rp2", "rbc", "rbc2", "rtc1", "rtc2", "rtA"]
+  pool_rtc = ["rt", "rt2", "rp1", "rp2", "rb", "rtA", "rtc2"]
   ev = []
   for n in range(0, 5):
     for lst in itertools.permutations(pool_ruby, n):
@@ -231,29 +238,37 @@ def menu_ruby_lists():
   return ev
 
 
-STYLE_PROPS = ["FontFamily", "Color", "LineHeight"]
-STYLE_VALUES = ["ff_ok", "ff_one", "ff_bad_int", "ff_bad_mixed", "ff_list", "color", "color2", "junkstr", "special_normal",
-                "special_none", "len_pct", "NONE"]
-STYLE_VALUES_SMALL = ["ff_ok", "ff_bad_int", "ff_list", "color", "junkstr", "special_normal", "special_none", "NONE"]
 STYLE_ELEMS = ["span1", "p1", "text1", "br1", "r1"]
+# deep style family: per property the values that are near it (valid, near misses, a foreign type, removal); the full
+# property x value cross product is the style-table family
+STYLE_MENU = {
+  "FontFamily": ["ff_ok", "ff_one", "ff_bad_int", "ff_bad_mixed", "ff_list", "junkstr", "NONE"],
+  "Color": ["color", "color2", "junkstr", "NONE"],
+  "LineHeight": ["special_normal", "special_none", "len_pct", "junkstr", "NONE"],
+  "NOPROP": ["color", "NONE"],
+}
+STYLE_MENU_SMALL = {
+  "FontFamily": ["ff_ok", "ff_bad_int", "ff_list", "NONE"],
+  "Color": ["color", "junkstr", "NONE"],
+  "LineHeight": ["special_normal", "special_none", "NONE"],
+  "NOPROP": ["color"],
+}
 
 
-def menu_style(values):
+def menu_style(table):
   ev = []
+  pv = [(p, v) for p, vs in table.items() for v in vs]
   for e in ("span1", "p1", "text1"):
-    for p in STYLE_PROPS + ["NOPROP"]:
-      for v in values:
-        ev.append(["set_style", e, p, v])
+    for p, v in pv:
+      ev.append(["set_style", e, p, v])
   for e in ("span1", "br1", "r1"):
-    for p in STYLE_PROPS + ["NOPROP"]:
-      for v in values:
-        ev.append(["add_animation_step", e, p, v])
+    for p, v in pv:
+      ev.append(["add_animation_step", e, p, v])
     ev.append(["add_animation_step", e, "JUNK"])
     ev.append(["add_animation_step", e, "NONE"])
   for d in ("A", "B"):
-    for p in STYLE_PROPS + ["NOPROP"]:
-      for v in values:
-        ev.append(["put_initial_value", d, p, v])
+    for p, v in pv:
+      ev.append(["put_initial_value", d, p, v])
   for s in STYLE_ELEMS:
     for d in STYLE_ELEMS + ["NONE", "JUNK"]:
       ev.append(["copy_to", s, d])
@@ -290,7 +305,7 @@ def build_world(init_event):
   u = UNIVERSES[uname]
   w = R.World(u)
   for ev in u["presets"][preset]:
-    res, _w = R.run_event(w, ev)
+    res, _w = R.run_event(w, ev, guard=False)
     if res != "ok":
       raise HarnessError(f"preset {uname}/{preset}: set-up event {ev} was not accepted ({res})")
   return w
@@ -298,15 +313,10 @@ def build_world(init_event):
 
 def replay(history):
   """fresh real objects, the history applied in order; rejected calls are part of the history"""
-  for _attempt in range(3):
-    w = build_world(history[0])
-    for ev in history[1:]:
-      res, w2 = R.run_event(w, ev)
-      if res == "hang" or w2 is not w:
-        break                           # the per-call timer fired (slow machine): replay again
-    else:
-      return w
-  raise HarnessError(f"a non-terminating event is part of a history: {history}")
+  w = build_world(history[0])
+  for ev in history[1:]:
+    R.run_event(w, ev, guard=False)
+  return w
 
 
 # ------------------------------------------------------------------------------------------------------
@@ -342,6 +352,7 @@ def make_expand(uname, menu, depth):
       return []
     a0 = R.abstract(w, snap)
     succ = []
+    memo = {}
     fresh = True
     for ev in menu:
       if not fresh:
@@ -360,18 +371,23 @@ def make_expand(uname, menu, depth):
       changed = priv != snap.priv
       if changed:
         fresh = False
-        snap2 = R.snapshot(w, priv)
+        hit = memo.get(priv)
+        if hit is None:
+          # projections, abstract state and invariant are functions of the complete private projection: computed once
+          # per distinct successor state of this expansion (many events lead to the same successor)
+          snap2 = R.snapshot(w, priv)
+          hit = memo[priv] = (snap2, R.abstract(w, snap2), R.invariant(w, snap2))
+        snap2, a1, inv2 = hit
         key = snap2.key
       else:
         fresh = True
-        snap2 = snap
+        snap2, a1, inv2 = snap, a0, inv
         key = snap.key
       acc.case(f"{op}:{res}:{'changed' if changed else 'same'}", nontrivial=changed)
       succ.append((ev, key))
       if not changed and res != "ok":
         continue
       argc = None
-      a1 = R.abstract(w, snap2) if changed else a0
       if res != "ok":
         # a rejected call changed the model
         clause, counter = R.atomic_clause(a0, ev, w)
@@ -394,7 +410,6 @@ def make_expand(uname, menu, depth):
                           observed={k: a1[k] for k in diff}, expected={k: want[k] for k in diff},
                           note="an accepted call did not change the model as the reference model says")
       if changed:
-        inv2 = R.invariant(w, snap2)
         new = {k: v for k, v in inv2.items() if k not in inv}
         if new:
           if argc is None:
@@ -538,7 +553,7 @@ def plan(tier, seed):
     family("ruby", "ruby", menu_ruby(), 5 if thorough else 4,
            "Ruby/Rb/Rt/Rp/Rbc/Rtc push_children patterns, push_child, remove*, with an Rt of another document"),
     family("ruby-lists", "ruby", menu_ruby_lists(), 1, "every list of <= 4 distinct elements to Ruby.push_children and Rtc.push_children"),
-    family("style", "style", menu_style(STYLE_VALUES_SMALL if thorough else STYLE_VALUES), 4 if thorough else 3,
+    family("style", "style", menu_style(STYLE_MENU_SMALL if thorough else STYLE_MENU), 4 if thorough else 3,
            "set_style/add_animation_step/put_initial_value/copy_to, valid and invalid values, font-family items"),
     family("style-table", "style", menu_style_table(), 1, "36 properties x every named value x 3 sinks"),
   ]
